@@ -237,7 +237,7 @@ c_rt = Component("programs-both-directions",
                  "static _header/_hostheader/_parameter decorations, mixed-case step names, payloads empty / 1-48 bytes / all 256 "
                  "values, initial request None / empty / pre-populated / already holding stale values at the termination places; library transform == reference transform under the same "
                  "mask keys, library recover and reference recover of the library message, library recover of the reference message; "
-                 "600 programs quick / 30000 thorough, seed=VERIF_SEED")
+                 "3000 programs quick / 30000 thorough, seed=VERIF_SEED")
 c_srv = Component("server-programs-reverse-build",
                   "HttpDataTransform(recover_steps, reverse=True, build='output') as C2Http builds it: recover lists with byte-string or "
                   "bare-length prepend/append arguments; transform -> HttpResponse -> recover returns ServerC2Data with the original "
@@ -285,7 +285,7 @@ def check_program(comp, steps, members, request, key):
     comp.case(key, ok, sample=repr(steps)[:120], witness=witness)
 
 
-N = 600 if TIER == "quick" else 30000
+N = 3000 if TIER == "quick" else 30000
 for i in range(N):
     nblocks = 1 + i % 3
     steps, members = gen_program(nblocks)
